@@ -58,7 +58,42 @@ def gen_rich_rule(rng):
                              0],
                     interval=rng.choice([1, 1, 2]),
                     count=rng.choice([3, 10, 11, 40]), cache=False)
-    elif r < 0.2:
+    elif r < 0.12:
+        # the first representable instants
+        spec["dtstart"] = [1, 1, 1, 0, 0, 0]
+        spec.pop("until", None)
+        spec.setdefault("count", rng.choice([1, 5, 10, 11]))
+    elif r < 0.24:
+        # BY-parts beyond the plain ones: n-th weekdays, set positions, year
+        # days, week numbers, Easter offsets, minutes
+        k = rng.choice(["nth", "setpos", "yearday", "weekno", "easter",
+                        "minute"])
+        spec = dict(dtstart=spec["dtstart"], interval=rng.choice([1, 1, 2]),
+                    count=rng.choice([0, 1, 5, 10, 11, 20, 21]), cache=False)
+        if k == "nth":
+            spec["freq"] = rng.choice([0, 1])
+            spec["bynweekday"] = [[rng.randrange(7),
+                                   rng.choice([1, 2, -1, -2, 5])]
+                                  for _ in range(rng.choice([1, 2]))]
+        elif k == "setpos":
+            spec["freq"] = 1
+            spec["byweekday"] = [0, 1, 2, 3, 4]
+            spec["bysetpos"] = rng.choice([[-1], [1], [1, -1], [2, -2]])
+        elif k == "yearday":
+            spec["freq"] = 0
+            spec["byyearday"] = sorted(rng.sample([1, 59, 60, 100, 200, 365,
+                                                   366, -1, -366], 3))
+        elif k == "weekno":
+            spec["freq"] = 0
+            spec["byweekno"] = sorted(rng.sample([1, 20, 52, 53, -1], 2))
+            spec["byweekday"] = [rng.randrange(7)]
+        elif k == "easter":
+            spec["freq"] = 0
+            spec["byeaster"] = sorted(rng.sample([0, -2, 1, 39, 49], 2))
+        else:
+            spec["freq"] = rng.choice([3, 4])
+            spec["byminute"] = sorted(rng.sample([0, 15, 30, 59], 2))
+    elif r < 0.36:
         # a rule whose expansion depends on the week start: every 2nd/3rd
         # week on several weekdays (wkst explicit, or taken from the
         # process-wide calendar.firstweekday() when the rule is built)
@@ -287,6 +322,9 @@ def execute(cls, scenario, ctx):
             # says by now
             spec2.setdefault("wkst", fwd0)
             spec2[name] = val
+            if name == "byweekday":
+                # replaces the whole BYDAY part, n-th weekdays included
+                spec2.pop("bynweekday", None)
             if name == "count" and "until" in spec2:
                 pass        # both given: same keyword path in the model
             try:
